@@ -331,7 +331,8 @@ type c16LongCase struct {
 	Kind  int `json:"lead_kind"`
 	Bufio int `json:"bufio_size"`
 	Chunk int `json:"reader_chunk"`
-	// Tail > 0: instead of two null packets the stream ENDS with the first Tail bytes of a header (47 40 00)
+	// Tail > 0: instead of two null packets the stream ENDS with the first Tail bytes of a header (47 40 00);
+	// Tail < 0: two packets whose header bytes 1/2 are sync bytes themselves (-1: 47 00 47 1x, -2: 47 47 47 1x)
 	Tail int `json:"cut_header_bytes,omitempty"`
 }
 
@@ -369,6 +370,21 @@ func c16CheckLong(c c16LongCase) engine.Result {
 	}
 	if c.Tail > 0 {
 		s = append(s, []byte{0x47, 0x40, 0x00}[:c.Tail]...)
+	} else if c.Tail < 0 {
+		// two packets whose own header holds further sync bytes: PID 0x0047 (47 00 47 1x) / unit start with
+		// PID 0x0747 (47 47 47 1x)
+		for k := 0; k < 2; k++ {
+			var p [188]byte
+			for i := range p {
+				p[i] = byte(0x90 + (i+k)%0x30)
+			}
+			if c.Tail == -1 {
+				p[0], p[1], p[2], p[3] = 0x47, 0x00, 0x47, 0x10|byte(k)
+			} else {
+				p[0], p[1], p[2], p[3] = 0x47, 0x47, 0x47, 0x10|byte(k)
+			}
+			s = append(s, p[:]...)
+		}
 	} else {
 		s = append(s, c16NullPacket[:]...)
 		s = append(s, c16NullPacket[:]...)
@@ -531,6 +547,29 @@ func init() {
 					}
 				},
 				Check: c16CheckLong, Batch: 8,
+			},
+			&engine.Enum[c16LongCase]{
+				Name: "sync-every-offset",
+				Rule: "EVERY lead length 0..2100 (thorough 0..8300) of 0xFF followed by packets whose own header holds further sync bytes (PID 0x0047: 47 00 47 1x; unit start with PID 0x0747: 47 47 47 1x), through bufio sizes {1500, 4096} (thorough also 16, 2000, 8192), whole-stream and one-byte reads: the true header sits at every offset of any look-ahead window, and its first byte is not its only sync byte; oracle of sync-long-leads",
+				Gen: func(r *engine.Run, emit func(c16LongCase)) {
+					maxN, bufs := 2100, []int{1500, 4096}
+					if r.Thorough() {
+						maxN, bufs = 8300, []int{16, 1500, 2000, 4096, 8192}
+					}
+					for n := 0; n <= maxN; n++ {
+						for _, tail := range []int{-1, -2} {
+							for _, b := range bufs {
+								for _, ch := range []int{0, 1} {
+									if ch == 1 && (n+b+tail)%3 != 0 && !r.Thorough() {
+										continue // one-byte reads for a third of the combinations in the quick tier
+									}
+									emit(c16LongCase{Lead: n, Kind: 0, Bufio: b, Chunk: ch, Tail: tail})
+								}
+							}
+						}
+					}
+				},
+				Check: c16CheckLong, Batch: 16,
 			},
 			&engine.Enum[c16LongCase]{
 				Name: "sync-buffer-edges",
